@@ -11,7 +11,19 @@ Case families
             three styles (plain; padded numbers `01.0` / `100.0`; one random style).  These give the smallest witnesses.
   random    libraries with every option set independently and 0-3 items per list, versions none / 5.3 .. 5.8, under random
             styles (separators with comments incl. non-ASCII text, keyword case masks, number spellings, permutations,
-            END LIBRARY present or not)."""
+            END LIBRARY present or not).
+  dir_*     directed families, one case per class (directed_cases): dir_numspell every spelling (leading zeros, dropped zero, trailing
+            zeros, trailing point: 36) of 28 decimal classes (zero with a scale, i32/u32/i64/u64/96-bit/28-digit edges, negative, 1e-28);
+            dir_version every accepted VERSION value 5, 5.0 .. 5.8, 5.00, 5.40 .. x spellings, with the <= 5.4 statements below the gate
+            and without END LIBRARY from 5.6; dir_dbu every DATABASE MICRONS value x spellings with a point; dir_layer_hdr EXCEPTPGNET x
+            SPACING/DESIGNRULEWIDTH x WIDTH x geometry in OBS and PORT; dir_names_keyword / _odd / _same a library with everything set whose
+            identifiers are all one LEF keyword (43 keywords, either case) / nearly numbers (inf, nan, 1e, -., 0x1F ..) / all equal;
+            dir_full_styled the library with everything set under directed styles (LF / CRLF / TAB only, non-ASCII comment before every
+            token, empty comments, comment ending in CR, 40-item separators, nothing after the last token, case masks, reversed and
+            alternating statement order, all spellings); dir_long_lists 24-200 items per list (macros, pins, ports, layers, geometries,
+            points, properties, antenna values, sites, vias, extensions, property definitions, density rectangles, symmetries);
+            dir_chars BUSBITCHARS / DIVIDERCHAR that are `#`, `;`, quote, backslash, 2/3/4-byte boundary characters; dir_ext BEGINEXT text
+            holding keywords, near misses of ENDEXT, odd tokens, neighbouring blocks, a block at the very end of the text."""
 import json, re
 from vlib import *
 from props.lefcommon import *
@@ -164,6 +176,177 @@ STY_PLAIN = "(mkstyle [] [[SWs 32]] [SWs 10] None [] [] [] false true)"
 # numbers written 01.0 / 0100.0 ; keywords lower case ; properties joined into one statement
 STY_PADDED = "(mkstyle [] [[SWs 32]; [SWs 10; SWs 32]] [SWs 10] None [[true]] [mknumsp 1 false 1 false] [] true true)"
 
+# ------------------------------------------------------------------ directed families (generator audit 2026-10-02)
+def _sty(lead="[]", seps="[[SWs 32]]", trail="[SWs 10]", tc="None", cases="[]", nums="[]", keys="[]", joined=False, endlib=True):
+    return "(mkstyle %s %s %s %s %s %s %s %s %s)" % (lead, seps, trail, tc, cases, nums, keys, "true" if joined else "false", "true" if endlib else "false")
+
+# every spelling the specification has for one number: leading zeros x dropped zero x trailing zeros x trailing point
+ALL_SPELLINGS = [(a, b, c, d) for a in (0, 1, 2) for b in (False, True) for c in (0, 1, 3) for d in (False, True)]
+def _nums(sp):
+    return "[" + "; ".join("mknumsp %d %s %d %s" % (a, "true" if b else "false", c, "true" if d else "false") for a, b, c, d in sp) + "]"
+
+# decimal classes: (label, [neg, mantissa, scale]); magnitudes at the edges of i32 / u32 / i64 / u64 / 96 bits / 28 digits, zero with
+# a scale, integer part zero (the dropped-zero spelling applies), negative, trailing zeros in the mantissa
+DEC_CLASSES = [("zero", [False, "0", 0]), ("zero.000", [False, "0", 3]), ("one", [False, "1", 0]), ("half", [False, "5", 1]), ("neg_half", [True, "5", 1]),
+               ("neg_int", [True, "7", 0]), ("0.05", [False, "5", 2]), ("1.50", [False, "150", 2]), ("100", [False, "100", 0]), ("100.000", [False, "100000", 3]),
+               ("i32max", [False, str(2 ** 31 - 1), 0]), ("2^31", [False, str(2 ** 31), 0]), ("neg2^31", [True, str(2 ** 31 + 1), 0]), ("2^32", [False, str(2 ** 32), 0]),
+               ("2^63", [False, str(2 ** 63), 0]), ("u64max", [False, str(2 ** 64 - 1), 0]), ("2^64", [False, str(2 ** 64), 0]), ("2^64/1e5", [False, str(2 ** 64), 5]),
+               ("1e19", [False, str(10 ** 19), 0]), ("28nines", [False, str(10 ** 28 - 1), 0]), ("1e27", [False, str(10 ** 27), 0]), ("1e-28", [False, "1", 28]),
+               ("0.28nines", [False, str(10 ** 28 - 1), 28]), ("neg0.28nines", [True, str(10 ** 28 - 1), 28]), ("1.0..01", [False, str(10 ** 27 + 1), 27]),
+               ("neg28nines/1e14", [True, str(10 ** 28 - 1), 14]), ("12345.6789", [False, "123456789", 4]), ("0.0010", [False, "10", 4])]
+
+KEYWORD_NAMES = ["END", "MACRO", "PIN", "PORT", "LAYER", "OBS", "LIBRARY", "PROPERTY", "VIA", "SITE", "DEFAULT", "VIARULE", "RECT", "POLYGON", "PATH", "MASK",
+                 "ITERATE", "DO", "BY", "STEP", "CLASS", "SIZE", "ON", "X", "N", "BEGINEXT", "ENDEXT", "VERSION", "UNITS", "DENSITY", "EXCEPTPGNET", "SPACING",
+                 "DESIGNRULEWIDTH", "WIDTH", "RANGE", "STRING", "TRISTATE", "BUMP", "FOREIGN", "RESISTANCE", "ANTENNAGATEAREA", "SOURCE", "FIXEDMASK"]
+# words that are nearly numbers, or number-like words of the float grammar that the lexer takes as names because of their first letter
+ODD_NAMES = ["inf", "nan", "NaN", "Infinity", "INF", "e5", "E", "-", "--", "-.", "..", ".", "-e5", "1e", "1e+", "1e-", ".e5", "5e5e5", "0x1F", "1_0", "1.2.3",
+             "-inf_", "-infx", "1+", "5;", "a;", "a#b", 'a"b', "-#", "1..", "-.e", "infinity_", "nanx", "18T", "3.3v", "-1-", "1e5x", "é", "中1", "a\U0001F600"]
+
+def _macro(**kw):
+    m = minimal(R("lef_macro"))
+    m.update(kw)
+    return m
+
+def _lg(name="l", **kw):
+    g = minimal(R("lef_layer_geoms"))
+    g["layer_name"] = H(name)
+    g.update(kw)
+    return g
+
+def directed_cases(quick=True):
+    """(kind, label, style term, library): small families, one case per class; every kind shows up in input_distribution"""
+    out = []
+    d1 = lambda v, s=0: [False, str(v), s]
+    # -- numbers: every spelling of every decimal class, at the positions MANUFACTURINGGRID, ORIGIN, SIZE and the points of a polygon
+    for label, d in DEC_CLASSES:
+        lib = minimal_lib()
+        lib["manufacturing_grid"] = d
+        poly = {"v": "Shape", "a": [{"v": "Polygon", "a": [None, [{"x": d, "y": d} for _ in range(18)]]}]}
+        lib["macros"] = [_macro(origin={"x": d, "y": d}, size=[d, d], obs=[_lg(geometries=[poly])])]
+        # 41 numbers; the cyclic list of 36 spellings is shifted by 5 so that the polygon's 36 numbers meet each spelling once
+        sp = ALL_SPELLINGS[-5:] + ALL_SPELLINGS[:-5]
+        out.append(("dir_numspell", label, _sty(nums=_nums(sp)), lib))
+    # -- VERSION: every value the reader accepts (5, 5.0 .. 5.8) in several spellings; statements of LEF <= 5.4 below the gate; no END LIBRARY from 5.6
+    for v, s in [(5, 0)] + [(50 + k, 1) for k in range(9)] + [(500, 2), (540, 2), (560, 2), (5800, 3)]:
+        tenths = v * 10 // 10 ** s
+        for sp in [(0, False, 0, False), (1, False, 0, False), (0, False, 2, False), (2, False, 1, True), (0, False, 0, True)]:
+            lib = minimal_lib()
+            lib["version"] = [False, str(v), s]
+            if tenths <= 54:
+                lib["names_case_sensitive"] = "On"
+                lib["no_wire_extension_at_pin"] = "Off"
+                lib["macros"] = [_macro(source="User")]
+            else:
+                lib["macros"] = [_macro()]
+            out.append(("dir_version", "%s/10^%d sp%s" % (v, s, sp), _sty(nums=_nums([sp]), endlib=(tenths < 56 or sp[0] == 1)), lib))
+    # -- DATABASE MICRONS: every legal value x spellings with a point
+    for v in DBU:
+        for sp in [(0, False, 0, True), (0, False, 3, False), (2, False, 0, False), (1, False, 1, True)]:
+            lib = minimal_lib()
+            lib["units"] = dict(minimal(R("lef_units")), database_microns=v)
+            out.append(("dir_dbu", "%d sp%s" % (v, sp), _sty(nums=_nums([sp])), lib))
+    # -- the LAYER statement of a PORT / OBS: EXCEPTPGNET x {none, SPACING, DESIGNRULEWIDTH} x WIDTH, with and without geometry
+    rect = {"v": "Shape", "a": [{"v": "Rect", "a": [None, _pt(0, 0), _pt(1, 1)]}]}
+    for epg in (None, True):
+        for sp in (None, {"v": "Spacing", "a": [d1(15, 1)]}, {"v": "DesignRuleWidth", "a": [d1(25, 2)]}):
+            for w in (None, d1(3)):
+                for geo in ([], [rect]):
+                    lg = _lg(except_pg_net=epg, spacing=sp, width=w, geometries=geo)
+                    lg2 = _lg("k", except_pg_net=epg, spacing=sp, width=w, geometries=geo)
+                    label = "epg=%s sp=%s w=%s g=%d" % (epg, sp and sp["v"], w is not None, len(geo))
+                    out.append(("dir_layer_hdr", "obs " + label, STY_PLAIN, dict(minimal_lib(), macros=[_macro(obs=[lg, lg2])])))
+                    pin = dict(minimal(R("lef_pin")), ports=[{"class": None, "layers": [lg, lg2]}])
+                    if geo:
+                        out.append(("dir_layer_hdr", "port " + label, STY_PADDED, dict(minimal_lib(), macros=[_macro(pins=[pin])])))
+    # -- identifiers that are LEF keywords / nearly numbers / all the same, at EVERY identifier position of a library with everything set
+    small = {("lef_lib", "vias"): 2}
+    for i, kw in enumerate(KEYWORD_NAMES):
+        w = kw if i % 2 == 0 else kw.lower()
+        out.append(("dir_names_keyword", w, STY_PLAIN if i % 3 else STY_PADDED, rich_lib(54 if i % 2 else None, lambda k, w=w: w, wide=small, lean=True)))
+    for i in range(0, len(ODD_NAMES), 3):
+        grp = ODD_NAMES[i:i + 3]
+        out.append(("dir_names_odd", " ".join(grp), STY_PLAIN, rich_lib(None, lambda k, grp=grp: grp[k % len(grp)], wide=small, lean=True)))
+    for nm in ("a", "m"):
+        out.append(("dir_names_same", nm, STY_PLAIN, rich_lib(53, lambda k, nm=nm: nm, wide={("lef_lib", "macros"): 2, ("lef_macro", "pins"): 2, ("lef_lib", "vias"): 2}, lean=True)))
+    # -- the library with everything set (two macros, pins, ports, vias ...), under directed styles
+    mid = {("lef_lib", "vias"): 2, ("lef_macro", "pins"): 2, ("lef_macro", "obs"): 2, ("lef_macro", "density"): 2, ("lef_density_geoms", "geometries"): 2}
+    full = rich_lib(None, wide=mid)
+    full54 = rich_lib(54, wide=mid)
+    nonascii = cbytes(H("é中\U0001F600 ́"))
+    styles = [
+        ("plain", STY_PLAIN), ("padded", STY_PADDED),
+        ("sep=LF (every token at the start of a line)", _sty(seps="[[SWs 10]]", trail="[]")),
+        ("sep=CRLF", _sty(seps="[[SWs 13; SWs 10]]", trail="[SWs 13; SWs 10]")),
+        ("sep=TAB", _sty(seps="[[SWs 9]]", trail="[SWs 9]")),
+        ("sep=blank + non-ASCII comment, next token at the start of the line", _sty(seps="[[SWs 32; SComment %s]]" % nonascii, trail="[SWs 32; SComment %s]" % nonascii)),
+        ("sep=LF + non-ASCII comment + blank", _sty(lead="[SComment %s]" % nonascii, seps="[[SWs 10; SComment %s; SWs 32]]" % nonascii, trail="[SWs 10]", tc="(Some %s)" % nonascii)),
+        ("sep=empty comment", _sty(lead="[SComment %s]" % cbytes(""), seps="[[SWs 32; SComment %s]; [SWs 9; SComment %s; SComment %s]]" % ((cbytes(""),) * 3), trail="[SWs 32]", tc="(Some %s)" % cbytes(""))),
+        ("sep=comment ending in CR", _sty(seps="[[SWs 32; SComment %s; SWs 13; SWs 10]]" % cbytes(H("c ; MACRO \r")))),
+        ("sep=40 items", _sty(seps="[[%s]]" % "; ".join(["SWs 32", "SWs 10", "SComment %s" % cbytes(H(" c")), "SWs 9", "SWs 13"] * 8))),
+        ("no text after the last token", _sty(trail="[]", endlib=True)),
+        ("no END LIBRARY, no text after the last token", _sty(trail="[]", endlib=False)),
+        ("case=all lower", _sty(cases="[[true]]")), ("case=alternating aB", _sty(cases="[[true; false]]")), ("case=alternating Ab", _sty(cases="[[false; true]]")),
+        ("case=first letter lower", _sty(cases="[[true; false; false; false; false; false; false; false; false; false; false; false; false; false; false; false; false; false; false; false; false; false; false; false; false; false; false; false; false; false]]")),
+        ("case=by keyword", _sty(cases="[[true]; []; [false; true]; [true; true; false]]")),
+        ("order=reversed", _sty(keys="[%s]" % "; ".join("%d%%nat" % k for k in range(60, -1, -1)))),
+        ("order=alternating", _sty(keys="[1%nat; 0%nat]")), ("order=three-way", _sty(keys="[2%nat; 0%nat; 1%nat; 0%nat; 2%nat]", joined=True)),
+        ("all spellings", _sty(nums=_nums(ALL_SPELLINGS), joined=True)),
+    ]
+    leanlib = rich_lib(None, wide=small, lean=True)
+    for label, sty in styles:
+        # separators that multiply the length of the text go with the one-item-per-list library
+        out.append(("dir_full_styled", label, sty, leanlib if "comment" in label or "40 items" in label else full))
+        if label.startswith(("order", "case=by", "sep=LF", "plain")):
+            out.append(("dir_full_styled", "5.4 " + label, sty, full54))
+    # -- long lists (the random libraries have 0-3 items per list)
+    def long_lib(what):
+        lib = minimal_lib()
+        r = Rich(False)
+        if what == "macros":
+            lib["macros"] = [_macro(name=H("m%d" % i), size=[d1(i), d1(i + 1)]) for i in range(40)]
+        elif what == "pins":
+            lib["macros"] = [_macro(pins=[dict(minimal(R("lef_pin")), name=H("p%d" % i), use_=ENUMS["LefPinUse"][i % 5][0]) for i in range(30)])]
+        elif what == "ports_layers":
+            ports = [{"class": None, "layers": [_lg("l%d_%d" % (i, j), geometries=[{"v": "Shape", "a": [{"v": "Rect", "a": [None, _pt(i, j), _pt(i + 1, j + 1)]}]}]) for j in range(6)]} for i in range(8)]
+            lib["macros"] = [_macro(pins=[dict(minimal(R("lef_pin")), ports=ports)])]
+        elif what == "geometries":
+            gs = [r.ctor("lef_geometry", *SCH["lef_geometry"][2][i % 2]) for i in range(36)]
+            vs = [{"via_name": H("v%d" % i), "pt": {"x": d1(i), "y": [True, str(i), 0]}} for i in range(1, 9)]
+            lib["macros"] = [_macro(obs=[_lg(geometries=gs, vias=vs)])]
+        elif what == "points":
+            pts = [{"x": d1(i), "y": [True, str(i + 1), 1]} for i in range(200)]
+            lib["macros"] = [_macro(obs=[_lg(geometries=[{"v": "Shape", "a": [{"v": "Polygon", "a": [None, pts]}]}, {"v": "Iterate", "a": [{"v": "Path", "a": [d1(2), pts[:150]]}, r.val(R("lef_step"))]}])])]
+            lib["vias"] = [{"name": H("v"), "default": False, "data": {"v": "Fixed", "a": [{"resistance_ohms": None, "layers": [{"layer_name": H("l"), "shapes": [{"v": "Polygon", "a": [None, pts[:120]]}]}]}]}}]
+        elif what == "properties":
+            props = [{"name": H("p%d" % i), "value": H(['"s %d"' % i, str(i) + ".50", "w%d" % i][i % 3])} for i in range(24)]
+            lib["macros"] = [_macro(properties=props, pins=[dict(minimal(R("lef_pin")), properties=props[::-1], antenna_attrs=[r.val(R("lef_antenna_attr")) for _ in range(27)])])]
+        elif what == "sites_vias_ext":
+            lib["sites"] = [dict(minimal(R("lef_site")), name=H("s%d" % i), size=[d1(i), d1(2 * i)]) for i in range(12)]
+            lib["vias"] = [r.val(R("lef_via_def")) for _ in range(12)]
+            lib["extensions"] = [{"name": H('"t%d"' % i), "data": H("x%d %d ; " % (i, i))} for i in range(10)]
+            lib["property_definitions"] = [r.ctor("lef_propdef", *SCH["lef_propdef"][2][i % 3]) for i in range(18)]
+        elif what == "density_symmetry":
+            dens = [{"layer_name": H("l%d" % i), "geometries": [{"pt1": _pt(i, j), "pt2": _pt(i + 1, j + 1), "density_value": d1(10 * i + j, 1)} for j in range((i * 3) % 5)]} for i in range(8)]
+            lib["macros"] = [_macro(density=dens, symmetry=["X", "Y", "R90", "X", "R90", "Y", "Y"])]
+            lib["sites"] = [dict(minimal(R("lef_site")), symmetry=["R90", "R90", "X", "Y", "X"])]
+        return lib
+    for what in ("macros", "pins", "ports_layers", "geometries", "points", "properties", "sites_vias_ext", "density_symmetry"):
+        out.append(("dir_long_lists", what, STY_PLAIN, long_lib(what)))
+        out.append(("dir_long_lists", what + " joined, reversed order", _sty(seps="[[SWs 32]; [SWs 10]]", keys="[%s]" % "; ".join("%d%%nat" % k for k in range(40, -1, -1)), joined=True), long_lib(what)))
+    # -- characters of BUSBITCHARS / DIVIDERCHAR that mean something to the lexer, 4-byte and combining characters, equal pair
+    for a, b, c in [("#", ";", "#"), (";", "#", ";"), ("'", "\\", "\\"), ("\U0001F600", "́", "\U0001F600"), ("[", "[", "'"), ("!", "~", "́"), ("é", "\U00010348", "߿"), ("￿", "ࠀ", "\U0010ffff")]:
+        out.append(("dir_chars", "%r %r %r" % (a, b, c), STY_PLAIN, dict(minimal_lib(), bus_bit_chars=[ord(a), ord(b)], divider_char=ord(c))))
+        out.append(("dir_chars", "%r alone" % a, STY_PADDED, dict(minimal_lib(), bus_bit_chars=[ord(b), ord(a)])))
+    # -- BEGINEXT blocks: keywords (BEGINEXT itself, near misses of ENDEXT) and odd tokens in the text, neighbouring blocks, block at the end of the text
+    ext_datas = ["", "BEGINEXT ", "ENDEXTX XENDEXT END EXT ENDEX ", "MACRO m END m END LIBRARY ", "; ; ", '"q" "" "é#;" ', "1e5 - -. 1.5 79228162514264337593543950336 ",
+                 "é 中\U0001F600 a;b a#b ", "CREATOR \"x\" ; DATE 1 ; "]
+    for i, dta in enumerate(ext_datas):
+        e = {"name": H('"t %d;#"' % i), "data": H(dta)}
+        out.append(("dir_ext", "data=%r" % dta, STY_PLAIN, dict(minimal_lib(), extensions=[e])))
+        out.append(("dir_ext", "data=%r twice, lower case, last in the text" % dta, _sty(cases="[[true]]", trail="[]", endlib=False),
+                    dict(minimal_lib(), extensions=[e, e], macros=[_macro()])))
+    return out
+
 # ------------------------------------------------------------------ cases
 def gen_cases(chk):
     rng = chk.rng
@@ -177,12 +360,25 @@ def gen_cases(chk):
         add("feature_padded", label, STY_PADDED, lib)
         if not quick or rng.random() < 0.5:
             add("feature_styled", label, gen_style(rng, lib), lib)
+    for kind, label, sty, lib in directed_cases(quick):
+        add(kind, label, sty, lib)
     nlib, nsty = (260, 3) if quick else (2000, 6)
     for i in range(nlib):
         ver = rng.choice([None, 53, 54, 55, 56, 57, 58])
         lib = gen_lib(rng, ver, "plain" if i % 3 == 0 else "mixed")
         for j in range(nsty):
             add("random", "v%s" % ver, gen_style(rng, lib, plain=(i % 7 == 0 and j == 0)), lib)
+    # the Coq evaluation is sharded by position: spread the long directed texts evenly over the shards
+    heavy = [c for c in cases if c["kind"] in ("dir_full_styled", "dir_long_lists", "dir_names_keyword", "dir_names_odd", "dir_names_same")]
+    if heavy:
+        rest = [c for c in cases if c not in heavy]
+        stride = max(1, len(rest) // len(heavy))
+        cases = []
+        for i, c in enumerate(rest):
+            if i % stride == 0 and heavy:
+                cases.append(heavy.pop())
+            cases.append(c)
+        cases += heavy
     return cases, dist
 
 # ------------------------------------------------------------------ labelling of failures (Python side; the verdict is Coq's)
@@ -321,7 +517,10 @@ def run(chk, replay=None):
                        "smallest library holding exactly that one thing, under a plain style, a padded-number lower-case style and a random style; random: libraries "
                        "with each option set independently, 0-3 items per list, decimals from {0, integers, 1-6 decimals, negative, trailing zeros, 28 digits}, "
                        "versions none/5.3..5.8, under random styles (comments with non-ASCII text, CR/LF/TAB, case masks, number spellings, statement permutations, "
-                       "END LIBRARY optional). Non-trivial: the library is not the empty library; distinct by rendered text.")
+                       "END LIBRARY optional); dir_*: directed families, one case per class (all spellings x decimal classes at the 32/64/96-bit and 28-digit edges, "
+                       "every VERSION value and DATABASE MICRONS value x spellings, LAYER statement option combinations, identifiers that are keywords / nearly numbers / "
+                       "all equal at every identifier position, the library with everything set under directed separator / case / order styles, lists of 24-200 items, "
+                       "special BUSBITCHARS / DIVIDERCHAR characters, BEGINEXT texts). Non-trivial: the library is not the empty library; distinct by rendered text.")
     res, codes = evaluate(chk, cases, "c04")
     chk.cov["evaluations"] = len(cases)
     chk.cov["distinct_nontrivial"] = len({c["src"] for c in cases if nontrivial(c)})
@@ -352,7 +551,7 @@ def run(chk, replay=None):
             c, r = lst[0]
             chk.violation("LEF text %r is %s (impl: %s; %d failing cases of %d in this class)" % (
                 bytes.fromhex(c["src"]).decode("utf8", "replace")[:200], cls, json.dumps(r["r"])[:240], len(lst), len(cases)),
-                {"cases": [{k: v for k, v in x[0].items()} for x in lst[:10]], "class": cls, "impl": [x[1]["r"] if "ok" not in x[1]["r"] else "ok(differs)" for x in lst[:10]]})
+                {"cases": [{k: v for k, v in x[0].items()} for x in lst[:10]], "class": cls, "kinds": {k: sum(1 for x in lst if x[0]["kind"] == k) for k in sorted({x[0]["kind"] for x in lst})}, "impl": [x[1]["r"] if "ok" not in x[1]["r"] else "ok(differs)" for x in lst[:10]]})
     elif mism:
         c, r, k = min(mism, key=lambda x: len(x[0]["src"]))
         chk.broken.append("correspondence C04: impl differs from model (%d cases), e.g. %r impl=%s" % (
